@@ -55,6 +55,85 @@ def desugar_elem_borrows(x, fail):
         return tuple(walk(y) if isinstance(y, (tuple, list)) else y for y in x)
     return block(x)
 
+
+# ---- phase 4k: `enumerate()` chains (table flag `enum_iters`), rewritten BEFORE the lowering (documented readings of the std iterators):
+#  (a)  RECV.iter().enumerate().for_each(|(i, e)| BODY)      |->  for i in 0..RECV.len() { let e = &RECV[i]; BODY }
+#  (b)  Y.chunks(K).enumerate().for_each(|(j, c)| BODY)      |->  let c__k = K; assert!(c__k != 0);                  (`chunks(0)` panics)
+#                                                                 let mut c__n = Y.len() / c__k; if Y.len() % c__k != 0 { c__n = c__n + 1; }
+#                                                                 for j in 0..c__n { let c__lo = j * c__k;
+#                                                                     let c__hi = if Y.len() - c__lo < c__k { Y.len() } else { c__lo + c__k };
+#                                                                     BODY[c := &Y[c__lo..c__hi]] }
+#       (Y a plain slice variable; the chunk may only be used as a whole, e.g. as a `&[u64]` argument; the last chunk may be shorter).
+#  Closures must be literal with a pair pattern of two plain names; anything else is refused.
+def _subst_path(x, name, repl, fail):
+    if isinstance(x, list): return [_subst_path(y, name, repl, fail) for y in x]
+    if not isinstance(x, tuple) or not x: return x
+    if x[0] == "path" and x[1] == [name]: return repl
+    if x[0] == "let" and x[1] == name: fail(f"iterator variable `{name}` is shadowed")
+    return tuple(_subst_path(y, name, repl, fail) if isinstance(y, (tuple, list)) else y for y in x)
+
+def desugar_enumerate(x, fail, fname):
+    from rs2lean import parse_snippet
+    def unparse_recv(e):
+        e = _sp(e)
+        if e[0] == "path": return "::".join(e[1])
+        if e[0] == "field": return unparse_recv(e[1]) + "." + e[2]
+        fail("enumerate chain: receiver is not a variable / field chain")
+    def for_each(e, ln):
+        clo = _sp(e[3][0]) if len(e[3]) == 1 else None
+        if clo is None or clo[0] != "closure" or len(clo[1]) != 1 or clo[1][0][1] is not None: fail("for_each without a one-parameter closure literal")
+        pat = clo[1][0][0]
+        if not (isinstance(pat, tuple) and pat[0] == "tuplepat" and len(pat[1]) == 2 and all(isinstance(q, str) for q in pat[1])):
+            fail("enumerate closure parameter must be a pair of plain names")
+        ix, el = pat[1]
+        en = _sp(e[1])
+        if not (en[0] == "mcall" and en[2] == "enumerate" and not en[3]): return None
+        src = _sp(en[1])
+        body = block((list(clo[2][0]), clo[2][1]))
+        bstmts = body[0] + ([("expr", body[1], ln)] if body[1] is not None else [])
+        if src[0] == "mcall" and src[2] == "iter" and not src[3]:
+            r = unparse_recv(src[1])
+            loop = parse_snippet(f"for {ix} in 0..{r}.len() {{ let {el} = &{r}[{ix}]; }}", "stmts", fname)
+            assert len(loop) == 1 and loop[0][0] == "for"
+            f = loop[0]
+            return [("for", f[1], f[2], (list(f[3][0]) + bstmts, None), ln)]
+        if src[0] == "mcall" and src[2] == "chunks" and len(src[3]) == 1:
+            y = _sp(src[1])
+            if not (y[0] == "path" and len(y[1]) == 1): fail("`chunks` of anything but a slice variable")
+            yv = y[1][0]; k, n, lo, hi = el + "__k", el + "__n", el + "__lo", el + "__hi"
+            pre = parse_snippet(f"let {k} = 0; assert!({k} != 0); let mut {n} = {yv}.len() / {k}; if {yv}.len() % {k} != 0 {{ {n} = {n} + 1; }} "
+                                f"for {ix} in 0..{n} {{ let {lo} = {ix} * {k}; let {hi} = if {yv}.len() - {lo} < {k} {{ {yv}.len() }} else {{ {lo} + {k} }}; }}",
+                                "stmts", fname)
+            assert pre[0][0] == "let" and pre[-1][0] == "for"
+            pre[0] = ("let", pre[0][1], pre[0][2], pre[0][3], src[3][0], ln)
+            repl = ("ref", False, ("index", ("path", [yv]), ("range", ("path", [lo]), ("path", [hi]), False)))
+            f = pre[-1]
+            pre[-1] = ("for", f[1], f[2], (list(f[3][0]) + _subst_path(bstmts, el, repl, fail), None), ln)
+            return pre
+        fail("enumerate chain: only `x.iter().enumerate()` and `x.chunks(k).enumerate()` are accepted")
+    def block(blk):
+        stmts, tail = blk
+        stmts = list(stmts)
+        if tail is not None:
+            t0 = _sp(tail)
+            if t0[0] == "mcall" and t0[2] == "for_each": stmts.append(("expr", tail, None)); tail = None
+        out = []
+        for s in stmts:
+            if isinstance(s, tuple) and s and s[0] == "expr":
+                e = _sp(s[1])
+                if e[0] == "mcall" and e[2] == "for_each":
+                    r = for_each(e, s[2] if len(s) > 2 else None)
+                    if r is not None: out += r; continue
+            out.append(walk(s))
+        return (out, None if tail is None else walk(tail))
+    def walk(x):
+        if isinstance(x, list): return [walk(y) for y in x]
+        if not isinstance(x, tuple) or not x: return x
+        if len(x) == 2 and isinstance(x[0], list) and (x[1] is None or isinstance(x[1], tuple)) and all(isinstance(t, tuple) for t in x[0]):
+            return block(x)
+        return tuple(walk(y) if isinstance(y, (tuple, list)) else y for y in x)
+    return block(x)
+
 TG = "self.base_t_gamma.as_ref().unwrap()"
 TABLE_RNS_4K = [
     {"file": UR, "fn": "decrypt_scale_and_round", "impl": "RNSTool", "model": "RNSTool.decryptScaleAndRound", "nested_loops": True,
@@ -79,4 +158,8 @@ TABLE_RNS_4K = [
                   ("self.m_tilde", "mTilde", "Modulus"), ("self.base_q.base()", "baseQ", "List Modulus")],
      "extern": [{"rcall": "self.base_q_to_Bsk_conv.fast_convert_array", "binder": "qToBskF"},
                 {"rcall": "self.base_q_to_m_tilde_conv.fast_convert_array", "binder": "qToMtF"}]},
+    {"file": UR, "fn": "decompose", "impl": "RNSBase", "lean": "rnsbase_decompose", "model": "RNSBase.decompose", "nested_loops": True,
+     "abstract": [("self.base.len()", "size", "Nat"), ("self.base[#]", "base", "List Modulus")]},
+    {"file": UR, "fn": "decompose_array", "impl": "RNSBase", "lean": "rnsbase_decompose_array", "model": "(RNSBase.decompose on every column)", "nested_loops": True,
+     "enum_iters": True, "abstract": [("self.base.len()", "size", "Nat"), ("self.base[#]", "base", "List Modulus")]},
 ]
